@@ -255,6 +255,7 @@ package closest
 //@     invariant [c12.slots] forall(j, 0, i, QResultsArray[envat(cResults, j).qidx] == envat(cResults, j))
 //@   before call:writeClosest#1: assert [c12.slots] forall(k, 0, nQ, QResultsArray[k] == envat(cResults, resultOf(k)) && QResultsArray[k].qidx == k)
 //@   before call:writeClosest#1: assert [c06.writer.args] arg(1) == measure && arg(2) == out
+//@   before call:splitInput#1: assert [c06.options] sameslice(arg(0), queries) && arg(1) == measure
 //@   ghost gErrSeen bool = false
 //@   before return#2: do gErrSeen = true
 //@   before return#3: do gErrSeen = true
@@ -281,9 +282,9 @@ package closest
 //@     invariant [c12.slots] forall(j, 0, i, QResultsArray[envat(cResults, j).qidx] == envat(cResults, j))
 //@   before call:writeClosestNTable#1: assert [c12.slots] table && forall(k, 0, nQ, QResultsArray[k] == envat(cResults, resultOfN(k)) && QResultsArray[k].qidx == k)
 //@   before call:writeClosestN#1: assert [c12.slots] !table && forall(k, 0, nQ, QResultsArray[k] == envat(cResults, resultOfN(k)) && QResultsArray[k].qidx == k)
-//@   before call:writeClosestNTable#1: assert [c06.writer.args] arg(1) == measure && arg(2) == out
+//@   before call:writeClosestNTable#1: assert [c06.writer.args] arg(1) == out && arg(2) == measure
 //@   before call:writeClosestN#1: assert [c06.writer.args] arg(1) == out
-//@   before call:splitInputN#1: assert [c06.options] arg(0) == queries && arg(1) == catchmentSize && (arg(2) == maxdist || (isnan(arg(2)) && isnan(maxdist))) && arg(3) == measure
+//@   before call:splitInputN#1: assert [c06.options] sameslice(arg(0), queries) && arg(1) == catchmentSize && (arg(2) == maxdist || (isnan(arg(2)) && isnan(maxdist))) && arg(3) == measure
 //@   ghost gErrSeen bool = false
 //@   ghost gWriteFailed bool = false
 //@   before return#2: do gErrSeen = true
